@@ -287,6 +287,9 @@ class P(Prop):
             if op["op"] == "remove":
                 ns = [op["ns"]] if isinstance(op["ns"], str) else op["ns"]
                 gone.update(x for x in ns if "." in x)
+            if op["op"] == "add_subcircuit" and op.get("self") and o == "ok":
+                # the circuit was added into itself: pins the caller had removed are missing in the copy as well
+                gone.update(f"{op['name']}_{x}" for x in list(gone))
             case = {"start": start, "ops": list(done)}
             if v0 is None:
                 v = inv_violation(c, gone)
@@ -310,8 +313,9 @@ class P(Prop):
                     if op["op"] == "add":
                         srcs = {u for u, _ in new_edges}
                         fo = self.norm(op.get("fanout", []))
-                        if not (len(srcs) == 1 and all(v in fo for _, v in new_edges) and op.get("fanin")
-                                and next(iter(srcs)) not in before_nodes):
+                        # (the fan-in argument was given — possibly as the empty string, which `add` turns into [""])
+                        if not (len(srcs) == 1 and all(v in fo for _, v in new_edges) and op.get("fanin") is not None
+                                and op.get("fanin") != [] and next(iter(srcs)) not in before_nodes):
                             sig += ":unexpected-shape"
                     elif op["op"] == "add_blackbox":
                         if not all(u.startswith(op["name"] + ".") or v.startswith(op["name"] + ".") for u, v in new_edges):
